@@ -106,7 +106,8 @@ def nested(binary, sess, point, tag):
     # the uninterrupted recovery's answer: run once more on a fresh copy (not under strace)
     ref_dir = os.path.join(work, "ref")
     crash.materialize(point.snap, sess["root"], ref_dir)
-    ref = crash.recover_images(binary, [ref_dir], [k.hex() for k in sess["keys"]], crashrun.NKEYS)[ref_dir]
+    ref = crash.recover_images(binary, [ref_dir], [k.hex() for k in sess["keys"]], crashrun.NKEYS,
+                               remat={ref_dir: lambda: crash.materialize(point.snap, sess["root"], ref_dir)})[ref_dir]
     shutil.rmtree(ref_dir, ignore_errors=True)
     shutil.rmtree(img, ignore_errors=True)
     return ref, pts + extra, img
